@@ -14,6 +14,10 @@ CHECKS = {
    technique="exhaustive enumeration of short token sequences and character strings + rapid random trees/edits/literals, differential against a reference lexer and precedence-climbing parser; structure compared modulo associativity",
    text="Generated-input search against an independent reference grammar: all token sequences <=5 (6) tokens and all strings <=4 (5) characters over the lexically relevant alphabet are parsed by actionlint and by the harness's reference parser; verdict (accept/reject), tree structure modulo associativity, literal values and error offset/line/column are compared; random deep trees with known structure, single-token edits, number/string literal fuzz and a sample through the linter extend beyond the exhaustive bound.",
    design="DESIGN.md section 5, C04"),
+ "C05": dict(
+   technique="rapid generation of workflow shapes with a parallel scope model; one reference probe per line; per-probe comparison of actionlint's 'property is not defined' verdict with the model",
+   text="Workflow shapes (needs DAG, step order and id placement, matrices with literal and expression-defined parts, workflow_call/workflow_dispatch inputs, declared/undeclared secrets, job and workflow outputs) are generated together with a scope model; references to defined and undefined names are planted at every kind of position where the context is available and each probe's verdict must equal the model's.",
+   design="DESIGN.md section 5, C05"),
  "C06": dict(
    technique="rapid metamorphic testing: (typing environment, expression, loosening) triples; accepted under the environment => accepted under the loosened one; plus clean-workflow variant with fromJSON-defined matrix parts",
    text="Metamorphic relation over generated typing environments and expressions: every expression accepted by the semantic checker must still be accepted after one type occurrence is replaced by any or a closed object is opened; the same relation is checked end to end on generated clean workflows whose matrix row/include/whole matrix is replaced by an expression.",
@@ -22,6 +26,10 @@ CHECKS = {
    technique="rapid grammar-based generation of access chains over the documented untrusted paths and trusted relatives, in all spellings and embeddings; differential against a stateless top-down taint model over the harness's reference AST; positions checked through the linter",
    text="Expressions built from the documented untrusted paths (and trusted siblings/prefixes/extensions) with random per-segment spelling, array index/filter forms and embeddings are checked at the semantic-checker level and through the linter in script and non-script positions; the reported path sets and columns must equal those computed by an independent taint model on the harness's own parse tree.",
    design="DESIGN.md section 5, C11"),
+ "C12": dict(
+   technique="complete enumeration of (template leaf position of the workflow model) x (12 contexts + 5 special functions) x embeddings against a pinned transcription of GitHub's context availability table",
+   text="Finite space enumerated completely: every template leaf path of the workflow-syntax model is mapped to its governing table key (longest-prefix rule) and probed with every context name and special function in ten embeddings and both letter cases; a 'not allowed here' diagnostic must appear iff the pinned official table does not list the name for that key.",
+   design="DESIGN.md section 5, C12"),
  "C13": dict(
    technique="rapid-generated clean workflows (optionally with seeded sibling errors) x every mapping x {foreign key, duplicate key, removed mandatory key, removal next to a misplaced sibling}; expected report positions from the position-recording emitter and the section model",
    text="For every mapping of generated workflows, insertion of a foreign key (fresh, from another section, letter-case variant), duplication of a key (also in other letter case for case-insensitive user-named mappings) and removal of each mandatory key are applied; the model predicts a syntax-check diagnostic at the key (item for schedule), at the repetition, or a new diagnostic for the removal, and all diagnostics of the base must survive.",
